@@ -6156,7 +6156,9 @@ class Frame(ContainerOperand):
                 labels_prior[:key],
                 labels_insert,
                 labels_prior[key:],
-                ))
+                ),
+                name=self._columns._name,
+                )
 
         blocks = TypeBlocks.from_blocks(chain(
                 self._blocks._slice_blocks(column_key=slice(0, key)),
